@@ -11,7 +11,19 @@ import os, re, subprocess, random
 from ..common import MachineryError
 from .. import build, tlc, run, idb
 
-PN = {"P": ("A", "B"), "Q": ("X",), "R": ("Y",)}
+# parameter names per template; the spec is indifferent to them (alpha-equivalence), the renderer varies them:
+# scheme 0 all distinct, 1 and 2 reuse names between templates (as real code does: template<class T> everywhere)
+SCHEMES = [{"P": ("A", "B"), "Q": ("X",), "R": ("Y",), "V": ("Z",)},
+           {"P": ("T", "U"), "Q": ("T",), "R": ("T",), "V": ("T",)},
+           {"P": ("T", "U"), "Q": ("U",), "R": ("T",), "V": ("U",)}]
+
+
+def scheme_of(n):
+    return n % 3
+
+
+def PNn(n):
+    return SCHEMES[scheme_of(n)]
 ERRLINE = re.compile(r"^[^:\s]+:(\d+):\d+: error", re.M)
 
 
@@ -70,7 +82,8 @@ def names_tmpl(t, T):
 
 
 def render_prog(n, prog, force_fwd=False):
-    dflt, defs = prog
+    dflt, defs, alias = prog
+    PN = PNn(n)
     need_fwd = force_fwd
     if dflt[0] != "none" and (names_later(dflt, "P") or names_tmpl(dflt, "P")):
         need_fwd = True
@@ -80,7 +93,9 @@ def render_prog(n, prog, force_fwd=False):
             if b[0] != "none" and names_later(b, T):
                 need_fwd = True
     d = "" if dflt[0] == "none" else " = " + rt(dflt, n, PN["P"], True)
-    heads = {"P": "template<class A, class B%s> struct P%d", "Q": "template<class X> struct Q%d", "R": "template<class Y> struct R%d"}
+    a, b2 = PN["P"]
+    heads = {"P": "template<class " + a + ", class " + b2 + "%s> struct P%d", "Q": "template<class " + PN["Q"][0] + "> struct Q%d",
+             "R": "template<class " + PN["R"][0] + "> struct R%d"}
     out = []
     if need_fwd:
         out.append((heads["Q"] % n) + ";")
@@ -92,12 +107,66 @@ def render_prog(n, prog, force_fwd=False):
         h = heads[T] % ((("" if need_fwd else d), n) if T == "P" else n)
         body = " ".join("typedef %s %s;" % (rt(defs[T][s], n, PN[T], True), s) for s in ("m1", "m2") if defs[T][s][0] != "none")
         out.append("%s { %s };" % (h, body))
+    if alias[0] != "none":
+        out.append("template<class %s> using V%d = %s;" % (PN["V"][0], n, rt(alias, n, PN["V"], True)))
     return out
+
+
+def shared_name_uses(n, prog):
+    """Uses, in the body of template T, of another template U<...> with an argument that mentions a parameter of T whose
+    NAME also is the name of one of U's parameters (both without default argument).  The parser keeps one object per
+    (name, default) for template parameters, so T's parameter IS U's: when U<...> is instantiated inside T the argument
+    looks like U's own parameter, and when T is instantiated later the replacement is withheld from U's scope ("these
+    are substituted at instantiation").  Input predicate of C06-templ-shared-parameter-name."""
+    dflt, defs, alias = prog
+    PN = PNn(n)
+    hits = []
+
+    def has_default(T, i):
+        return T == "P" and i == 1 and dflt[0] != "none"
+
+    def params(t):
+        k = t[0]
+        if k == "p":
+            return {t[1] - 1}
+        if k in ("ptr", "ref", "c", "m"):
+            return params(t[1])
+        if k == "t":
+            out = set()
+            for a in t[2]:
+                out |= params(a)
+            return out
+        return set()
+
+    def walk(t, T, slot):
+        k = t[0]
+        if k in ("ptr", "ref", "c", "m"):
+            walk(t[1], T, slot)
+        elif k == "t":
+            U = t[1]
+            if U != T:
+                # every argument is the bare parameter of T that has the name of U's formal at that position
+                ident = len(t[2]) == len(PN[U]) and all(a[0] == "p" and PN[T][a[1] - 1] == PN[U][i] and not has_default(U, i)
+                                                        and not has_default(T, a[1] - 1) for i, a in enumerate(t[2]))
+                for a in t[2]:
+                    for j in params(a):
+                        for i in range(len(PN[U])):
+                            if PN[T][j] == PN[U][i] and not has_default(U, i) and not has_default(T, j):
+                                hits.append((T, U, "all" if ident else i, slot))
+            for a in t[2]:
+                walk(a, T, slot)
+    for T in "PQR":
+        for s in ("m1", "m2"):
+            if defs[T][s][0] != "none":
+                walk(defs[T][s], T, s)
+    if alias[0] != "none":
+        walk(alias, "V", "alias")
+    return hits
 
 
 def feats(prog, q):
     """feature tags of a (program, query): which rules its evaluation needs (for triage and finding classes)."""
-    dflt, defs = prog
+    dflt, defs, alias = prog
     f = set()
 
     def walk(t, inbody):
@@ -120,6 +189,13 @@ def feats(prog, q):
                 walk(defs[T][s], True)
     if dflt[0] != "none":
         f.add("has-default")
+    if alias[0] != "none":
+        walk(alias, True)
+
+    def names_v(t):
+        return (t[0] == "t" and (t[1] == "V" or any(names_v(a) for a in t[2]))) or (t[0] in ("ptr", "ref", "c", "m") and names_v(t[1]))
+    if names_v(q):
+        f.add("alias-template")
     walk(q, False)
     depth = 0
     t = q
@@ -140,8 +216,8 @@ def templ_inst(ctx, work):
         ctx.add_tlc(res)
         tlc.must_ok(res)
         for r in tlc.read_dump(dump):
-            key = repr((r["dflt"], sorted(r["defs"].items())))
-            p = progs.setdefault(key, ((r["dflt"], r["defs"]), {}))
+            key = repr((r["dflt"], sorted(r["defs"].items()), r["alias"]))
+            p = progs.setdefault(key, ((r["dflt"], r["defs"], r["alias"]), {}))
             p[1][repr(r["q"])] = (r["q"], r["r"])
     for k in progs:
         progs[k] = (progs[k][0], list(progs[k][1].values()))
@@ -283,21 +359,21 @@ def templ_inst(ctx, work):
             prog = byn[n][1]
             ctx.violation("valid class templates rejected by parse_file (%s): %s" % (info, " ".join(render_prog(n, prog, n % 3 == 0))),
                           dict(program=render_prog(n, prog, n % 3 == 0), info=info, stat_key="templ-reject"),
-                          classes=templ_classes(prog, None))
+                          classes=templ_classes(n, prog, None))
         for (n, qi), a in sorted(bad_cases.items()):
             prog, (q, r) = byn[n][1], byn[n][2][qi]
             ctx.violation("template instantiation resolves to another type: %s   %s  is printed as `%s` (spec = g++: %s)" % (
                 " ".join(render_prog(n, prog, n % 3 == 0)), rt(q, n), a, rt(r, n)),
                 dict(program=render_prog(n, prog, n % 3 == 0), query=rt(q, n), printed=a, expected=rt(r, n), view="parse_file",
                      stat_key="templ " + " ".join(feats(prog, q))),
-                classes=templ_classes(prog, q))
+                classes=templ_classes(n, prog, q))
         for (n, qi), a in sorted(bad3.items()):
             prog, (q, r) = byn[n][1], byn[n][2][qi]
             ctx.violation("database prototype of a function returning a template member type differs: %s   %s r();  is recorded as `%s` (spec = g++: %s)" % (
                 " ".join(render_prog(n, prog, n % 3 == 0)), rt(q, n), a, rt(r, n)),
                 dict(program=render_prog(n, prog, n % 3 == 0), query=rt(q, n), prototype=a, expected=rt(r, n), view="database",
                      stat_key="templ-db " + " ".join(feats(prog, q))),
-                classes=templ_classes(prog, q))
+                classes=templ_classes(n, prog, q))
         for n, qi in missing3:
             prog, (q, r) = byn[n][1], byn[n][2][qi]
             stats["db_missing"] = stats.get("db_missing", 0) + 1
@@ -305,11 +381,11 @@ def templ_inst(ctx, work):
             ctx.violation("interrogate failed on templates parse_file accepts: %s" % dbfail[-200:], dict(stat_key="templ-interrogate-fail"))
         for n, prog, qs in batch:
             for q, r in qs:
-                for c in templ_classes(prog, q):
+                for c in templ_classes(n, prog, q):
                     m = ctx.notes.setdefault("finding_class_failed_of_members", {}).setdefault(c, [0, 0])
                     m[1] += 1
         for (n, qi) in bad_cases:
-            for c in templ_classes(byn[n][1], byn[n][2][qi][0]):
+            for c in templ_classes(n, byn[n][1], byn[n][2][qi][0]):
                 ctx.notes["finding_class_failed_of_members"][c][0] += 1
     ctx.notes["templ_programs"] = len(cases)
     ctx.notes["templ_queries"] = sum(len(c[2]) for c in cases)
@@ -317,5 +393,71 @@ def templ_inst(ctx, work):
     return total
 
 
-def templ_classes(prog, q):
-    return []
+def expansions(prog, q):
+    """The member / alias definitions that the evaluation of query q expands, in order (the spec's Norm, call by name,
+    without the completeness side conditions — the spec has already established that q is well formed)."""
+    dflt, defs, alias = prog
+    order = []
+
+    def subst(t, T, args):
+        k = t[0]
+        if k == "b":
+            return t
+        if k == "p":
+            return args[t[1] - 1]
+        if k in ("ptr", "ref", "c"):
+            return [k, subst(t[1], T, args)]
+        if k == "t":
+            return ["t", t[1], [subst(a, T, args) for a in t[2]]]
+        if k == "m":
+            return ["m", subst(t[1], T, args), t[2]]
+        if k == "own":
+            return subst(defs[T][t[1]], T, args)
+        raise MachineryError("term %r" % (t,))
+
+    def norm(t):
+        k = t[0]
+        if k == "b":
+            return t
+        if k in ("ptr", "ref", "c"):
+            n = norm(t[1])
+            if k == "ref" and n[0] == "ref":
+                return n
+            if k == "c" and n[0] in ("ref", "c"):
+                return n
+            return [k, n]
+        if k == "t":
+            a = [norm(x) for x in t[2]]
+            if t[1] == "V":
+                order.append(("V", "alias"))
+                return norm(subst(alias, "V", a))
+            if t[1] == "P" and len(a) == 1:
+                a.append(norm(subst(dflt, "P", a)))
+            return ["t", t[1], a]
+        if k == "m":
+            n = norm(t[1])
+            order.append((n[1], t[2]))
+            return norm(subst(defs[n[1]][t[2]], n[1], n[2]))
+        raise MachineryError("term %r" % (t,))
+    res = norm(q)
+    return order, res
+
+
+def templ_classes(n, prog, q):
+    """finding classes of (case number, program, query) — input predicates only"""
+    out = []
+    hits = shared_name_uses(n, prog)
+    if hits:
+        if q is None:
+            out.append("C06-templ-shared-parameter-name")
+        else:
+            tainted = set((T, s) for T, U, i, s in hits)
+            identity = set((T, s) for T, U, i, s in hits if s is not None and i == "all")
+            order, _ = expansions(prog, q)
+            # a tainted definition is expanded and the query goes on looking into its result, or the last
+            # definition expanded names U with exactly U's own parameter names (printed without arguments)
+            for pos, d in enumerate(order):
+                if d in tainted and (pos + 1 < len(order) or d in identity):
+                    out.append("C06-templ-shared-parameter-name")
+                    break
+    return out
